@@ -26,9 +26,12 @@ Init == /\ meta \in {"dist-info", "egg-info"}
         /\ (install # "regular" => meta = "dist-info")
         \* what the entry MODULE pulls in from a sibling module that only it refers to (phase 4 of the scan must start
         \* its import walk from installed plugin entry modules too): nothing, `from .plugfx import *`, `from plugfx import *`,
-        \* `pytest_plugins = ["plugfx"]`.  A package target is scanned as a directory, so this only matters for modules.
+        \* `pytest_plugins = ["plugfx"]`.  A package target is scanned as a directory; there the onward edge leaves the
+        \* package: its __init__.py defines NO fixture of its own (plug_fx lives in plugpkg/core.py) and only re-exports the
+        \* top-level module plugfx next to the package (absolute star import or pytest_plugins).
         /\ onward \in {"none", "star_rel", "star_abs", "plugins"}
-        /\ (target # "module" => onward = "none")
+        /\ (target = "missing" => onward = "none")
+        /\ (target = "package" => onward # "star_rel")
 Next == UNCHANGED vars
 Spec == Init /\ [][Next]_vars
 
@@ -40,7 +43,7 @@ ClassOf == CASE install = "regular" -> "third"
 Expect == [plug_fx |-> IF target = "missing" THEN "absent" ELSE ClassOf,
            sub_fx |-> IF target = "package" THEN ClassOf ELSE "absent",
            builtin_fx |-> IF builtin THEN "third" ELSE "absent",
-           imp_fx |-> IF target = "module" /\ onward # "none" THEN ClassOf ELSE "absent"]
+           imp_fx |-> IF target # "missing" /\ onward # "none" THEN ClassOf ELSE "absent"]
 
 \* third-party fixtures are never project fixtures
 ThirdNeverProject == \A n \in DOMAIN Expect : Expect[n] # "project"
